@@ -181,3 +181,11 @@ package mcp
 //@   calls writeFileAtomic requires [C20:writes_only_the_configured_path_with_parsed_and_compiled_content] arg0 == trim(s.ConfigPath) && arg0 != "" && compiledOKContent == arg1 && lastParsed == arg1
 //@   calls rollbackConfigFile requires [C20:rollback_only_the_configured_path_to_its_previous_content] arg0 == trim(s.ConfigPath) && arg0 != "" && prevPath == arg0 && arg1 == prevExisted && arg2 == prevContent
 //@   ensures [C20:at_most_forward_and_rollback_write] renames >= old(renames) && renames <= old(renames) + 2
+
+// ---- C20: tools/list advertises exactly the tools a call would be allowed for ----
+
+//@ func (*Server).toolDescriptors
+//@   requires s != nil
+//@   loop 1 invariant [listed_pass_the_gate] rangeindex < len(tools) && forall k int :: 0 <= k && k < len(filtered) ==> accessOK(s, filtered[k].Name)
+//@   loop 1 invariant [allowed_candidates_kept] forall j int :: 0 <= j && j <= rangeindex && accessOK(s, tools[j].Name) ==> exists k int :: 0 <= k && k < len(filtered) && filtered[k].Name == tools[j].Name
+//@   ensures [C20:every_listed_tool_would_be_allowed] forall k int :: 0 <= k && k < len(result) ==> accessOK(s, result[k].Name)
